@@ -23,6 +23,8 @@ echo "demo exit codes with change:$WITH   without change:$WITHOUT"
 SUITE=$(cargo nextest run --workspace --no-fail-fast --test-threads 8 --offline 2>&1 | grep -E "Summary|tests run" | tail -1)
 echo "suite with change: $SUITE"
 cp $PATCH $OUT/patch.diff
+# a patch that no longer applies to /repo's HEAD is evaluated in a ported form (REPO_PATCH=<file>)
+if [ -n "${REPO_PATCH:-}" ]; then cp $PATCH $OUT/patch.original.diff; cp $REPO_PATCH $OUT/patch.diff; fi
 cp SEED_RESULT/README.md $OUT/README.agent.md 2>/dev/null
 for f in SEED_RESULT/*.rs; do cp $f $OUT/ 2>/dev/null; done
 # evaluate against /repo
